@@ -1391,6 +1391,33 @@ class Ev:
             if isinstance(o, Lenient):
                 o.root.log.append(("%s.%s =" % (o.label, target.attr), [v], {}))
             self.trace.append(("store", target, (o, target.attr, v)))
+        elif isinstance(target, ast.Subscript) and isinstance(target.slice, ast.Tuple) and len(target.slice.elts) == 2 and self._is_matrix(self.ev(target.value, env, mod)):
+            # m[i, j] = x / m[a:b, c:d] = rows: cells of a modelled two-dimensional array
+            o = self.ev(target.value, env, mod)
+            nrows, ncols = len(o.items), len(o.items[0].items)
+
+            def span(ix, n):
+                if isinstance(ix, ast.Slice):
+                    b = [None if x is None else self.ev(x, env, mod) for x in (ix.lower, ix.upper, ix.step)]
+                    if not all(x is None or (isinstance(x, int) and not isinstance(x, bool)) for x in b):
+                        raise Undecided("slice bounds %r" % (b,))
+                    return list(range(n))[slice(*b)], True
+                i = self.ev(ix, env, mod)
+                if not isinstance(i, int) or isinstance(i, bool):
+                    raise Undecided("array index %r" % (i,))
+                return [i if i >= 0 else n + i], False
+
+            (rs, r_sl), (cs, c_sl) = span(target.slice.elts[0], nrows), span(target.slice.elts[1], ncols)
+            for a_, r in enumerate(rs):
+                for b_, c in enumerate(cs):
+                    cell = v
+                    if r_sl and isinstance(cell, ListV):
+                        cell = cell.items[a_]
+                    if c_sl and isinstance(cell, ListV):
+                        cell = cell.items[b_]
+                    elif not r_sl and c_sl and isinstance(v, ListV):
+                        cell = v.items[b_]
+                    o.items[r].items[c] = cell
         elif isinstance(target, ast.Subscript):
             o = self.ev(target.value, env, mod)
             k = self.ev(target.slice, env, mod)
@@ -1797,7 +1824,7 @@ class Ev:
                 return not self.truth(v, e)
             if isinstance(e.op, ast.USub) and isinstance(v, (int, float)):
                 return -v
-            if isinstance(e.op, ast.USub) and is_numeric(v):
+            if isinstance(e.op, ast.USub) and (is_numeric(v) or self.outside_value(v)):
                 return Term("neg", [v])
             if isinstance(e.op, ast.UAdd) and is_numeric(v):
                 return v
@@ -1891,6 +1918,10 @@ class Ev:
         else:
             target = self.ev(f, env, mod)
         return self.apply(target, args, kwargs, e, mod)
+
+    @staticmethod
+    def _is_matrix(v):
+        return isinstance(v, ListV) and "ndarray" in getattr(v, "ext_types", ()) and bool(v.items) and all(isinstance(r, ListV) and len(r.items) == len(v.items[0].items) for r in v.items)
 
     def helper_class(self, c):
         """a class of the repository that only carries behaviour (it is callable, subscriptable, or a private class
@@ -2789,6 +2820,45 @@ class Ev:
                 if not recv.items:
                     raise _Raise(e, "pop from an empty set", "KeyError")
                 return recv.items.pop()
+        if self._is_matrix(recv) and name in ("dot", "__matmul__") and len(args) == 1 and not kwargs and isinstance(args[0], ListV):
+            other = args[0]
+            mul = lambda x, y: self.binop(ast.Mult(), x, y, e)
+            add = lambda x, y: self.binop(ast.Add(), x, y, e)
+
+            def zero(x):
+                return isinstance(x, (int, float)) and not isinstance(x, bool) and x == 0
+
+            def one(x):
+                return isinstance(x, (int, float)) and not isinstance(x, bool) and x == 1
+
+            def inner(row, col):
+                acc = None
+                for x, y in zip(row, col):
+                    if zero(x) or zero(y):
+                        continue
+                    t = y if one(x) else x if one(y) else mul(x, y)
+                    acc = t if acc is None else add(acc, t)
+                return 0.0 if acc is None else acc
+
+            if self._is_matrix(other):
+                if len(recv.items[0].items) != len(other.items):
+                    raise _Raise(e, "shapes not aligned", "ValueError")
+                cols = [[r.items[j] for r in other.items] for j in range(len(other.items[0].items))]
+                out = ListV([ListV([inner(r.items, c_) for c_ in cols]) for r in recv.items])
+                for r in out.items:
+                    r.ext_types = {"ndarray"}
+                out.ext_types = {"ndarray"}
+                return out
+            if len(recv.items[0].items) == len(other.items) and not any(isinstance(x, ListV) for x in other.items):
+                out = ListV([inner(r.items, other.items) for r in recv.items])
+                out.ext_types = {"ndarray"}
+                return out
+        if self._is_matrix(recv) and name == "transpose" and not args:
+            out = ListV([ListV([r.items[j] for r in recv.items]) for j in range(len(recv.items[0].items))])
+            for r in out.items:
+                r.ext_types = {"ndarray"}
+            out.ext_types = {"ndarray"}
+            return out
         if isinstance(recv, ListV) and "ndarray" in getattr(recv, "ext_types", ()) and name == "tolist" and not args:
             return ListV(list(recv.items))
         if isinstance(recv, ListV) and "ndarray" in getattr(recv, "ext_types", ()) and name in ("all", "any") and not args and all(isinstance(i, bool) for i in recv.items):
